@@ -14,6 +14,13 @@ Oracle : un-normalised joint of the SOURCE = product of ALL listed source factor
          of the edges, chordal by an own simplicial-elimination test (not nx.is_chordal); junction tree:
          connected, acyclic, every source factor scope inside a clique, every variable in a clique, running
          intersection checked directly per variable, one potential per clique.
+Call sequences (60 % of the cases): ONE BayesianNetwork / MarkovNetwork / FactorGraph object serves a row of
+         conversions (to_junction_tree twice, to_markov_model twice, triangulate copy, to_factor_graph,
+         triangulate(inplace=True) then to_junction_tree, triangulate again, explicit order); the RESULTS are
+         overwritten in between (potential values, factor lists, nodes, edges) and the source and the other
+         results must not follow; finally the SOURCE is edited (factor added, possibly on a new edge / CPD
+         replaced / factor node added) and converted again - every answer is judged against the oracle for the
+         model as it is at that call.
 """
 import itertools
 import os
@@ -40,11 +47,21 @@ RULE = ("three source kinds. BN (25 %): random discrete BNs of 1-7 nodes (8 thor
         "factor insertion order shuffled. MN: get_partition_function, to_factor_graph (+ Z and to_markov_model of "
         "that target), triangulate with every heuristic H1..H6 and two explicit full orders, inplace and copy, "
         "to_junction_tree when connected. FG: get_partition_function, to_markov_model, to_junction_tree when "
-        "connected. non-trivial: >= 2 variables and >= 1 edge in the (moral / primal) graph; distinct by digest of "
-        "the whole spec")
+        "connected. Boundary / extreme inputs: variable names that are falsy (0, '') or multi-digit ints; 10 % special "
+        "models (one variable with one state, all variables single-state, ONE factor over all variables, only "
+        "isolated nodes, a variable with 10-12 states); constant factors, equal values on different scopes; 30 % of "
+        "the MN/FG models scale factors (or single entries) by 1e-12..1e8 mixed in one model (summed exponents "
+        "within +-200) incl. two different factors on one scope with all entries < 1e-8; 25 % of the BNs have "
+        "columns with probabilities 1e-12..1e-3 next to 1-eps; triangulate also gets a lower-case heuristic name "
+        "(a refusal is only recorded, a returned graph is judged) and an order given as tuple. 60 % of the cases "
+        "run the call-sequence workload on one object (see module docstring). non-trivial: >= 2 variables and "
+        ">= 1 edge in the (moral / primal) graph; distinct by digest of the whole spec")
 ASSUMPTIONS = ["the product of the spec's factors (numpy broadcasting, cross-checked against the explicit-loop "
                "oracle.joint_table / oracle.mn_joint on small cases) is the reference; <= 4096 cells (16384 thorough)",
-               "float64; Z compared at rtol 1e-9, normalised joints at atol 1e-9",
+               "float64; Z compared at rtol 1e-9, normalised joints per cell at rtol 1e-9 (relative, because "
+               "potentials span 1e-12..1e8)",
+               "in the call-sequence workload results are edited through numpy in-place writes to factor.values "
+               "and list / networkx edits; shared factor OBJECTS between MN and FG targets are not written to",
                "all factors of a model list the states of a variable in the same order",
                "clique-tree targets are demanded only for connected graphs (disconnected ones are only recorded)",
                "triangulate is given full permutations of the node set as explicit orders"]
